@@ -102,3 +102,18 @@ Definition conv_agree (tol : Q) (o : opts) (m : mesh Q) (evol : list Q) (nfeat :
                        (combine gi ii))) g)
         ++ (if Nat.eqb (length impl) (length g) then [] else [999%nat]))
   end.
+
+(* the same with the order1_only option (second-order elements) *)
+Definition corr_matrices_x (tol : Q) (order1 : bool) (k1 : nat) (o : opts) (m : mesh Q)
+           (evol : list Q) (impl : list (list (list (int * int * int)))) :=
+  corr_matrices tol o (mesh_view order1 k1 o m) evol impl.
+
+Definition conv_agree_x (tol : Q) (order1 : bool) (k1 : nat) (o : opts) (m : mesh Q)
+           (evol : list Q) (nfeat : nat) (data : list (list Q))
+           (impl_i : list (list (list (int * int)))) :=
+  conv_agree tol o (mesh_view order1 k1 o m) evol nfeat
+    (if order1 then match o_mode o with
+                    | Nodal => select (order1_mask k1 m) data
+                    | Elemental => data
+                    end
+     else data) impl_i.
